@@ -2681,7 +2681,20 @@ func (m *Msg) hasMixed() bool {
 	// an attachment next to anything else (a body part, an embed or another attachment) needs
 	// the multipart/mixed container: without it, a message that has embeds and attachments but
 	// no body part would write all files one after the other into a single top-level entity
-	return m.pgptype == 0 && (((len(m.parts) > 0 || len(m.embeds) > 0) && len(m.attachments) > 0) || len(m.attachments) > 1)
+	return m.pgptype == 0 && (((m.hasBodyParts() || len(m.embeds) > 0) && len(m.attachments) > 0) || len(m.attachments) > 1)
+}
+
+// hasBodyParts returns true if the Msg has at least one body part other than the S/MIME signature
+// part of an earlier render. The signature part is appended to the parts by
+// signMessage; it must not influence the multipart structure, since the signed pre-render and
+// every render of a not yet signed Msg do not have it.
+func (m *Msg) hasBodyParts() bool {
+	for _, part := range m.parts {
+		if !part.smime {
+			return true
+		}
+	}
+	return false
 }
 
 // hasSMIME determines if the Msg should be signed with S/MIME.
@@ -2716,7 +2729,7 @@ func (m *Msg) isSMIMEInProgress() bool {
 // References:
 //   - https://datatracker.ietf.org/doc/html/rfc2387
 func (m *Msg) hasRelated() bool {
-	return m.pgptype == 0 && ((len(m.parts) > 0 && len(m.embeds) > 0) || len(m.embeds) > 1)
+	return m.pgptype == 0 && ((m.hasBodyParts() && len(m.embeds) > 0) || len(m.embeds) > 1)
 }
 
 // hasPGPType returns true if the Msg should be treated as a PGP-encoded message.
